@@ -113,6 +113,10 @@ func c01() {
 			}
 		}
 		spec := vlib.SpecOf(p, t.Name)
+		if i >= len(cat) && i%6 == 3 {
+			vlib.ShareBackingArray(p) // same policy value; the groups' lists are sub-slices of one array
+			run.Count("policies_whose_groups_share_one_array", 1)
+		}
 		c := vlib.Compile(p, t)
 		run.Count("policies", 1)
 		if !c.OK() {
